@@ -63,12 +63,26 @@ type puTarget struct {
 	// prefix mode
 	upto    string
 	results []string
+	// a function of an imported group: analysed (facts) but not emitted
+	extern bool
 }
 
 type puGroup struct {
 	name    string // translator name
 	ns      string // Lean namespace Stgutg.Gen.Pure.<ns>, file Gen/Pure<ns>.lean
 	targets []puTarget
+	// the extended grammar (pure_nas.go): pointers as Option, state behind pointer parameters, library calls through a
+	// group-local `Lib` record, structs trimmed to the fields the group accesses, in-place library calls, range loops
+	rich    bool
+	imports []string    // names of groups whose functions this group calls (their Gen module is imported, not re-emitted)
+	lib     []*puLibFn  // the library calls this group may make
+	// total library functions (interface-typed in Go): the carriers they are used at
+	libTotalSig map[string]puTotalSig
+}
+
+type puTotalSig struct {
+	n        int
+	arg, res string
 }
 
 var puGroups = []*puGroup{
@@ -112,6 +126,11 @@ type puGroupCtx struct {
 	structs []string // Lean structure declarations, in order
 	sname   map[*types.TypeName]string
 	staken  map[string]bool
+	// rich groups (pure_nas.go)
+	accessed map[*types.TypeName]map[string]bool // fields some function of the group selects
+	exposed  map[*types.TypeName]bool            // struct types handed to a library call
+	libUsed  map[string]string                   // Lib field → its Lean type
+	importNS []string                            // namespaces of the imported groups
 }
 
 func (gc *puGroupCtx) structName(c *puFn, t types.Type) (string, error) {
@@ -128,19 +147,21 @@ func (gc *puGroupCtx) structName(c *puFn, t types.Type) (string, error) {
 	}
 	gc.staken[name] = true
 	gc.sname[n.Obj()] = name
-	st := n.Underlying().(*types.Struct)
+	fields, hasRest, err := gc.structFields(n)
+	if err != nil {
+		return "", err
+	}
 	var b strings.Builder
-	fmt.Fprintf(&b, "/-- %s.%s -/\nstructure %s where\n", n.Obj().Pkg().Path(), name, name)
-	for i := 0; i < st.NumFields(); i++ {
-		f := st.Field(i)
-		if f.Embedded() {
-			return "", fmt.Errorf("struct %s has an embedded field", name)
-		}
+	fmt.Fprintf(&b, "/-- %s.%s%s -/\nstructure %s where\n", n.Obj().Pkg().Path(), name, gc.structNote(n, fields, hasRest), name)
+	for _, f := range fields {
 		lt, err := c.leanType(f.Type())
 		if err != nil {
 			return "", fmt.Errorf("struct %s field %s: %v", name, f.Name(), err)
 		}
 		fmt.Fprintf(&b, "  %s : %s\n", puLeanIdent(f.Name()), lt)
+	}
+	if hasRest {
+		b.WriteString("  rest_ : Go.Rest\n")
 	}
 	b.WriteString("  deriving DecidableEq, Repr\n")
 	gc.structs = append(gc.structs, b.String())
@@ -170,6 +191,21 @@ type puFn struct {
 	nloop int
 	body  []ast.Stmt // the translated statements (a prefix in prefix mode)
 	tail  []ast.Stmt
+	// rich groups (pure_nas.go): facts
+	state      []*types.Var          // pointer parameters whose object the function changes: returned as state, also on failure
+	nilable    map[*types.Var]bool   // slice parameters tested against nil in the prologue: carried as Option Bytes
+	clobbers   map[*types.Var]bool   // parameters whose storage the function may overwrite in place
+	idxParam   map[int]bool          // parameters p with p[k] evaluated unconditionally: not nil after a normal return
+	usesLib    bool
+	classes    *puClasses
+	resAlias   map[int]bool
+	paramAlias [][2]int
+	// rich groups: translation state
+	bound  map[*types.Var]bool // guarded parameters, bound to the value behind the pointer / the non-nil slice
+	fx     puFx
+	curTop ast.Node // the statement (or condition) being translated, for order-of-evaluation checks
+	guards map[ast.Stmt]*types.Var
+	forcedHigh map[*ast.SliceExpr]bool // x[a:b] where the next statement forces b ≤ len(x)
 }
 
 func (c *puFn) pos(n ast.Node) string {
@@ -286,8 +322,34 @@ func genPureGroup(ld *puLoader, g *puGroup) (string, error) {
 }
 
 func genPureGroupCtx(ld *puLoader, g *puGroup) (string, *puGroupCtx, error) {
-	gc := &puGroupCtx{g: g, ld: ld, byObj: map[*types.Func]*puFn{}, sname: map[*types.TypeName]string{}, staken: map[string]bool{}}
-	for _, t := range g.targets {
+	gc := &puGroupCtx{g: g, ld: ld, byObj: map[*types.Func]*puFn{}, sname: map[*types.TypeName]string{}, staken: map[string]bool{},
+		libUsed: map[string]string{}}
+	targets := append([]puTarget(nil), g.targets...)
+	for _, in := range g.imports {
+		var ig *puGroup
+		for _, x := range puGroups {
+			if x.name == in {
+				ig = x
+			}
+		}
+		if ig == nil {
+			return "", nil, fail("group %s imports unknown group %s", g.name, in)
+		}
+		_, igc, err := genPureGroupCtx(ld, ig)
+		if err != nil {
+			return "", nil, err
+		}
+		for tn, n := range igc.sname {
+			gc.sname[tn] = n
+			gc.staken[n] = true
+		}
+		gc.importNS = append(gc.importNS, ig.ns)
+		for _, t := range ig.targets {
+			t.extern = true
+			targets = append(targets, t)
+		}
+	}
+	for _, t := range targets {
 		p, err := ld.load(t.pkg)
 		if err != nil {
 			return "", nil, err
@@ -300,7 +362,8 @@ func genPureGroupCtx(ld *puLoader, g *puGroup) (string, *puGroupCtx, error) {
 		if obj == nil {
 			return "", nil, fail("%s: no type information for func %s", filepath.Join(p.dir, t.file), t.fn)
 		}
-		c := &puFn{t: t, grp: gc, pkg: p, decl: fd, obj: obj, lean: t.fn, names: map[types.Object]string{}, used: map[string]bool{}}
+		c := &puFn{t: t, grp: gc, pkg: p, decl: fd, obj: obj, lean: t.fn, names: map[types.Object]string{}, used: map[string]bool{},
+			bound: map[*types.Var]bool{}, fx: newPuFx()}
 		// a type error inside the function is a broken tie
 		// (except inside a statement call of a logging function: its callee lives in a third-party package the
 		// loader does not read, and the statement is ignored after its operands were checked to be harmless)
@@ -350,7 +413,11 @@ func genPureGroupCtx(ld *puLoader, g *puGroup) (string, *puGroupCtx, error) {
 		gc.fns = append(gc.fns, c)
 		gc.byObj[obj] = c
 	}
+	if g.rich {
+		gc.scanRich()
+	}
 	// facts, to a fixpoint (calls inside the group)
+	richSig := map[*puFn]string{}
 	for changed := true; changed; {
 		changed = false
 		for _, c := range gc.fns {
@@ -358,14 +425,24 @@ func genPureGroupCtx(ld *puLoader, g *puGroup) (string, *puGroupCtx, error) {
 			if err != nil {
 				return "", nil, err
 			}
+			if g.rich && !c.t.extern {
+				mo = true
+			}
 			if m != c.mutRecv || mo != c.monadic || ex != c.usesExt {
 				c.mutRecv, c.monadic, c.usesExt = m, mo, ex
+				changed = true
+			}
+			if rs := c.richFacts(); rs != richSig[c] {
+				richSig[c] = rs
 				changed = true
 			}
 		}
 	}
 	var defs []string
 	for _, c := range gc.fns {
+		if c.t.extern {
+			continue
+		}
 		if err := c.checkOwnership(); err != nil {
 			return "", nil, err
 		}
@@ -378,9 +455,20 @@ func genPureGroupCtx(ld *puLoader, g *puGroup) (string, *puGroupCtx, error) {
 	var b strings.Builder
 	fmt.Fprintf(&b, "-- GENERATED by `gen %s` from /repo's working tree (harness/cmd/gen/pure.go). Do not edit.\n", g.name)
 	b.WriteString("import Stgutg.Gen.PureRt\n")
-	fmt.Fprintf(&b, "namespace Stgutg.Gen.Pure.%s\nopen Stgutg Stgutg.Gen\nset_option linter.unusedVariables false\n\n", g.ns)
+	for _, ns := range gc.importNS {
+		fmt.Fprintf(&b, "import Stgutg.Gen.Pure%s\n", ns)
+	}
+	fmt.Fprintf(&b, "namespace Stgutg.Gen.Pure.%s\nopen Stgutg Stgutg.Gen\nset_option linter.unusedVariables false\n", g.ns)
+	for _, ns := range gc.importNS {
+		fmt.Fprintf(&b, "open Stgutg.Gen.Pure.%s\n", ns)
+	}
+	b.WriteString("\n")
 	for _, s := range gc.structs {
 		b.WriteString(s)
+		b.WriteString("\n")
+	}
+	if len(gc.libUsed) > 0 {
+		b.WriteString(gc.libRecord())
 		b.WriteString("\n")
 	}
 	for _, d := range defs {
@@ -404,6 +492,14 @@ func (c *puFn) callee(call *ast.CallExpr) (*puFn, ast.Expr) {
 		if sel, ok := c.pkg.info.Selections[f]; ok && sel.Kind() == types.MethodVal {
 			if o, ok := sel.Obj().(*types.Func); ok {
 				return c.grp.byObj[o], f.X
+			}
+		}
+		// pkg.F of another package of the repo
+		if id, ok := f.X.(*ast.Ident); ok {
+			if _, isPkg := c.pkg.info.Uses[id].(*types.PkgName); isPkg {
+				if o, ok := c.pkg.info.Uses[f.Sel].(*types.Func); ok {
+					return c.grp.byObj[o], nil
+				}
 			}
 		}
 	}
@@ -546,4 +642,32 @@ func (c *puFn) isAtoiByte(call *ast.CallExpr) bool {
 	}
 	at, ok := c.pkg.info.Types[in.Args[0]]
 	return ok && c.kindOf(at.Type) == puU8
+}
+
+// the groups of the extended grammar
+func init() {
+	nasLib := []*puLibFn{
+		{key: "(free5gclib/nas.Message).PlainNasEncode", field: "plainNasEncode", inPlace: -1, resNonNil: []int{0},
+			doc: "the plain NAS encoder: (octets, err != nil). ASSUMED: the octets are not nil when they are used (a message that encodes has written at least its header)"},
+		{key: "(free5gclib/nas.Message).PlainNasDecode", field: "plainNasDecode", inPlace: -1, recvMut: true, retain: []int{0},
+			doc: "the plain NAS decoder on the octets *byteArray (read only): (the message afterwards, err != nil)"},
+		{key: "free5gclib/nas/security.NASEncrypt", field: "nasEncrypt", inPlace: 5, nonNil: []int{5},
+			doc: "ciphers payload IN PLACE: (payload afterwards, err != nil); called with a non-nil payload only"},
+		{key: "free5gclib/nas/security.NASMacCalculate", field: "nasMac", inPlace: -1, nonNil: []int{5},
+			doc: "(mac, err != nil); called with a non-nil msg only"},
+		{key: "reflect.DeepEqual", field: "deepEqualBytes", inPlace: -1, total: true,
+			doc: "on two byte slices; total, no effect (what it answers for nil against empty is not modelled: the tie holds for every function)"},
+	}
+	g := &puGroup{name: "pure-nasprot", ns: "NasProt", rich: true, imports: []string{"pure-count"}, lib: nasLib,
+		libTotalSig: map[string]puTotalSig{"deepEqualBytes": {2, "Bytes", "Bool"}},
+		targets: []puTarget{
+			{pkg: "free5gclib/nas", file: "nas.go", fn: "NewMessage"},
+			{pkg: "free5gclib/nas", file: "nas.go", fn: "GetSecurityHeaderType"},
+			{pkg: "tglib", file: "security.go", fn: "NASEncode"},
+			{pkg: "tglib", file: "security.go", fn: "NASDecode"},
+			{pkg: "tglib", file: "packet.go", fn: "EncodeNasPduWithSecurity"},
+			{pkg: "tglib", file: "decode.go", fn: "GetNasPdu"},
+		}}
+	puGroups = append(puGroups, g)
+	register(g.name, func() error { return genPureGroups([]*puGroup{g}) })
 }
